@@ -46,7 +46,7 @@ func (propC03) Gen(r *Rng, run uint64, tier string) *Plan {
 	if r.Bool(0.03) && len(p.World.Containers[0].Log) > 0 {
 		// one very large frame (beyond any plausible buffer size)
 		log := p.World.Containers[0].Log
-		n := []int{64*1024 - 31, 64 * 1024, 64*1024 + 1, 128*1024 + 7, 300 * 1024, 1024*1024 + 3}[r.Intn(6)]
+		n := []int{64*1024 - 31, 64 * 1024, 64*1024 + 1, 128*1024 + 7, 300 * 1024, 1024*1024 + 3, 4*1024*1024 + 1, 5 * 1024 * 1024}[r.Intn(8)]
 		b := make([]byte, n)
 		for i := range b {
 			b[i] = byte('A' + i%23)
